@@ -29,6 +29,20 @@ def crossing_family() -> list[str]:
     return out
 
 
+CODE_OFF = {"preset": "commonmark", "options": {}, "enable": ["table"], "disable": ["code"], "ruler2_off": []}
+
+
+def code_off_docs() -> list[str]:
+    """every block construct at code indentation: with the `code` rule disabled each rule's own "is this an indented code line"
+    guard decides (to be run under CODE_OFF)"""
+    leaves = ["> q", "---", "- a", "1. a", "[r]: /u", "a\n    ===", "# h", "```\n    x\n    ```", "<div>", "|a|\n    |-|\n    |b|", "a"]
+    out = ["    " + x + "\n" for x in leaves]
+    out += ["para\n    " + x + "\n" for x in leaves] + ["> para\n>     " + x.replace("\n    ", "\n>     ") + "\n" for x in leaves]
+    out += ["- item\n\n      " + x.replace("\n    ", "\n      ") + "\n" for x in leaves]
+    out += ["     [r]: /u\n\n[r]\n", "\t# h\n", "   \t- a\n"]
+    return out
+
+
 def corner_docs() -> list[str]:
     """hand-made documents for branches no spec example or fixture reaches (found with coverage.py)"""
     return ['![a](/u "t"  \n', '![a](/u "t" x)\n', '![foo][bar\n\n[foo]: /u\n', '![foo][]\n\n[foo]: /u\n', '![foo] [bar]\n\n[foo]: /u\n',
@@ -68,6 +82,9 @@ def corner_docs() -> list[str]:
         "<o'brien@example.com> <a{b@example.com> <100%@example.com> <dev--null@example.com>\n",
         # label-only definition line followed by an interrupting block, in an item with a wide content column
         "10. [foo]:\n    ***\n\n    see [foo]\n", "-   [foo]:\n    ```\n    x\n    ```\n",
+        # statements no other document of the corpus executed (coverage.py over the correspondence runs)
+        "```\nx\n    ```\n```\n", "|a|b|c|\n|-||-|\n", "(c) <http://a.b/(c)> (tm) x +- <me@x.y>\n", '"a *b \'c* d\' e"\n',
+        "*\"a* b\" 'c *d' e*\n", "~~a~~~~b~~\n",
     ] + crossing_family()
 
 
